@@ -294,6 +294,21 @@ pub fn run(ctx: &mut Ctx) {
                     ctx.violation("remove-does-not-restore", "removing the assertion just added did not restore the previous envelope", replay("remove"));
                 }
             }
+            // replacing an assertion by one that is already present: the set loses the first and is
+            // otherwise unchanged (the node never holds one digest twice)
+            if k >= 2 && !any_obscured && rng.chance(1, 2) {
+                let j = order[rng.below(order.len())];
+                let present_now: Vec<usize> = (0..k).filter(|x| tree_of(&with).children.iter().skip(1).any(|c| c.digest == gen::root_digest(&asr[*x]))).collect();
+                if j != i && present_now.contains(&j) {
+                    ctx.count("replace_by_present_checked");
+                    let got = with.replace_assertion(asr[i].clone(), asr[j].clone()).unwrap();
+                    let rest: Vec<M> = present_now.iter().filter(|x| **x != i).map(|x| asr_m[*x].clone()).collect();
+                    let want2 = M::Node(Box::new(subject_m.clone()), rest).bytes();
+                    if env_bytes(&got) != want2 {
+                        ctx.violation("replace-by-present-differs", "replace_assertion(a, b) with b already present does not give the envelope without a", replay("replace by present"));
+                    }
+                }
+            }
             // replacing an assertion by itself, and by another one and back, restores the envelope
             if rng.chance(1, 3) {
                 ctx.count("replace_checked");
